@@ -803,6 +803,7 @@ func (bc *brokerConsumer) subscriptionConsumer() {
 	<-bc.wait // wait for our first piece of work
 
 	for newSubscriptions := range bc.newSubscriptions {
+		verifGate("bc.round", "", bc.broker.ID())
 		bc.updateSubscriptions(newSubscriptions)
 
 		if len(bc.subscriptions) == 0 {
